@@ -56,3 +56,13 @@ Ltac fins :=
   | H : isfinite ?a = true |- _ =>
       is_var a; let z := fresh "z" in apply isfinite_fin in H; destruct H as [z H]; subst a
   end.
+
+(* named variants *)
+Ltac stepn H x E :=
+  lazymatch type of H with
+  | bind ?r _ = Ok _ => destruct r as [x| | |] eqn:E; cbn [bind] in H; [|discriminate H ..]
+  end.
+Ltac stepc H E :=
+  lazymatch type of H with
+  | err_if ?b _ _ = Ok _ => destruct b eqn:E; cbn [err_if] in H; [discriminate H|]
+  end.
